@@ -67,6 +67,71 @@ theorem default_config_aligned (rec : Nat) (indet : Bool) (hrec : 1 ≤ rec) :
   obtain ⟨c, h, _, _, h2, h3, _, h5, _⟩ := config_aligned 15 Generated.Gateway.defaultReadSize rec indet hrec
   exact ⟨c, by rw [ha]; exact h, h2, h3, h5⟩
 
+/-! ## `window_honoured` (`GatewayConfig::set_active_work`, `Gateway::get_mpc_sender`) -/
+
+/-- **The window a channel is opened with is the window its buffer holds.**  For every gateway
+configuration, every requested window `2^a` (`NonZeroU32PowerOfTwo`; no upper bound — DZKP contexts
+request `records_per_batch`, far above the gateway default), every record size `≥ 1` and both kinds
+of totals, the configuration `get_mpc_sender` derives through `set_active_work` is returned (no
+assert fires), has `total_capacity = 2^a · record_size`, so any `k ≤ 2^a` outstanding records fit
+into the buffer without waiting for the reader, and is aligned as in `config_aligned`. -/
+theorem window_honoured (cfg : GwCfg) (a rec : Nat) (indet : Bool) (hrec : 1 ≤ rec) :
+    ∃ c, mpcSendCfg cfg (2 ^ a) rec indet = .ok c ∧
+      2 ^ a * rec ≤ c.totalCapacity ∧ (∀ k, k ≤ 2 ^ a → k * rec ≤ c.totalCapacity) ∧
+      c.recordSize = rec ∧ c.readSize ∣ c.totalCapacity ∧ c.recordSize ∣ c.readSize ∧
+      0 < c.readSize ∧ c.readSize ≤ c.totalCapacity := by
+  obtain ⟨c, h, h1, h0, h2, h3, h4, h5, _⟩ := config_aligned a cfg.readSize rec indet hrec
+  refine ⟨c, h, by omega, ?_, h0, h2, h3, h4, h5⟩
+  intro k hk
+  rw [h1]
+  exact Nat.mul_le_mul_right rec hk
+
+/-- instance: the window 2^16 above the gateway default 2^15, 1-byte records -/
+example : ∃ c, mpcSendCfg ⟨32768, 2048⟩ (2 ^ 16) 1 false = .ok c ∧ 65536 ≤ c.totalCapacity := by
+  obtain ⟨c, h, h1, _⟩ := window_honoured ⟨32768, 2048⟩ 16 1 false (by decide)
+  exact ⟨c, h, by simpa using h1⟩
+
+/-- `set_active_work` changes nothing but the window. -/
+theorem set_active_work_spec (cfg : GwCfg) (w : Nat) :
+    (setActiveWork cfg w).active = w ∧ (setActiveWork cfg w).readSize = cfg.readSize := ⟨rfl, rfl⟩
+
+/-- Why there must be no cap in `set_active_work`: with the override capped by the default window
+(`min(default.active, active_work)`), a channel opened with the window 65536 and 1-byte records gets
+a 32768-byte buffer — the 32769-th outstanding record has to wait for the reader. -/
+theorem capped_window_counterexample :
+    ∃ c, newWith (min 32768 65536) 2048 1 false = .ok c ∧ ¬ (65536 * 1 ≤ c.totalCapacity) := by
+  obtain ⟨c, h, h1, _⟩ := config_aligned 15 2048 1 false (by decide)
+  have e : min 32768 65536 = 2 ^ 15 := by decide
+  exact ⟨c, by rw [e]; exact h, by omega⟩
+
+theorem le_two_pow_bitLen (n : Nat) : n < 2 ^ bitLen n := by
+  unfold bitLen
+  split
+  · subst_vars; decide
+  · exact Nat.lt_log2_self
+
+theorem nextPow2_spec (n : Nat) : (∃ k, nextPow2 n = 2 ^ k) ∧ n ≤ nextPow2 n := by
+  unfold nextPow2
+  split
+  · exact ⟨⟨0, rfl⟩, by omega⟩
+  · refine ⟨⟨_, rfl⟩, ?_⟩
+    have := le_two_pow_bitLen (n - 1)
+    omega
+
+/-- `set_active_work_from_query_config`: the window is a power of two `≥ 2`, at least the query size
+capped by the default window, and the read size is untouched. -/
+theorem query_window (d : Nat) (cfg : GwCfg) (size : Nat) :
+    let c := setActiveWorkFromQuery d cfg size
+    (∃ k, 1 ≤ k ∧ c.active = 2 ^ k) ∧ min d size ≤ c.active ∧ c.readSize = cfg.readSize := by
+  obtain ⟨⟨k, hk⟩, hle⟩ := nextPow2_spec (max 2 (min d size))
+  refine ⟨⟨k, ?_, hk⟩, ?_, rfl⟩
+  · rcases k with _ | k
+    · simp only [Nat.pow_zero] at hk
+      omega
+    · omega
+  · show min d size ≤ nextPow2 (max 2 (min d size))
+    omega
+
 /-! ## `channel_isolation` (`StreamCollection`) -/
 
 theorem get_set_same (c : Coll) (k : Key) (s : StreamState) : (c.set k s).get k = some s := by
